@@ -29,6 +29,7 @@ const (
 	kfNoTags    = "C08-notags-invisible"
 	kfBackslash = "C08-prom-backslash-value"
 	kfNaNText   = "C08-otsdb-nan-text"
+	kfMetaWal   = "C08-meta-wal-stale-entry"
 )
 
 // Step is one element of a case history.
@@ -70,9 +71,11 @@ var (
 // OpenTSDB put: metric, tag keys and tag values consist of a-z A-Z 0-9 - _ . / and unicode
 // letters. '/' is left out of tag keys (a tag key names a file of the tags tree).
 var (
-	otsdbNames  = []string{"m", "cpu.user", "sys-load", "a", "ab", "a__b", "x/y", "m__a", "BaNaNa", "NaN.count", "é", "m0"}
-	otsdbKeys   = []string{"a", "b", "c", "ab", "bc", "host", "dc", "a__b", "b__", "k.x", "k-y", "xb", "ac"}
-	otsdbValues = []string{"", "1", "2", "a", "b", "c", "x", "xa", "bc", "ab", "__", "a__2", "1a__2", "x__b", "web-01", "eu.west", "a/b",
+	otsdbNames = []string{"m", "cpu.user", "sys-load", "a", "ab", "a__b", "x/y", "m__a", "é", "m0", "Ba0a"}
+	// names containing the text NaN run into known finding C08-otsdb-nan-text: drawn rarely
+	otsdbNaNNames = []string{"BaNaNa", "NaN.count"}
+	otsdbKeys     = []string{"a", "b", "c", "ab", "bc", "host", "dc", "a__b", "b__", "k.x", "k-y", "xb", "ac"}
+	otsdbValues   = []string{"", "1", "2", "a", "b", "c", "x", "xa", "bc", "ab", "__", "a__2", "1a__2", "x__b", "web-01", "eu.west", "a/b",
 		"é", "日本", "NaN", "0", "xNaN", "0.5"}
 )
 
@@ -105,7 +108,7 @@ func genTags(t *rapid.T, keys, values, rare []string, max int) []Tag {
 		}
 		used[k] = true
 		var v string
-		if len(rare) > 0 && pct(t, "rareVal", 12) {
+		if len(rare) > 0 && pct(t, "rareVal", 8) {
 			v = rapid.SampledFrom(rare).Draw(t, "valRare")
 		} else {
 			v = rapid.SampledFrom(values).Draw(t, "val")
@@ -160,6 +163,10 @@ func genE2ECase(t *rapid.T) *e2eCase {
 	nNames := rapid.IntRange(1, 3).Draw(t, "nNames")
 	var caseNames []string
 	for i := 0; i < nNames; i++ {
+		if cs.Proto == "otsdb" && pct(t, "nanName", 4) {
+			caseNames = append(caseNames, rapid.SampledFrom(otsdbNaNNames).Draw(t, "nameNaN"))
+			continue
+		}
 		caseNames = append(caseNames, rapid.SampledFrom(names).Draw(t, "name"))
 	}
 	// values that run into the open known findings (series-id delimiters, backslash, NaN text) are
@@ -435,6 +442,16 @@ func classifyE2E(cs *e2eCase, ex *exclusion, o *pt.Obs) {
 	if restarts >= 2 {
 		o.Class("hist_multi_restart")
 	}
+	segSeen := false
+	for _, st := range cs.Steps {
+		if st.Op == "segment" {
+			segSeen = true
+		}
+		if st.Op == "restart" && segSeen && pt.KnownFindingOpen(kfMetaWal) {
+			o.Known(kfMetaWal)
+			break
+		}
+	}
 	nt := false
 	for i := range cs.Series {
 		s := &cs.Series[i]
@@ -502,11 +519,14 @@ func classifyE2E(cs *e2eCase, ex *exclusion, o *pt.Obs) {
 
 type expSeries struct {
 	idx      int
-	optional bool // known finding C08-notags-invisible: may be absent; if returned it must be exact
-	name     string
-	tags     map[string]string // non-empty valued tags
-	all      map[string]string // all tags
-	pts      map[uint32][]uint64
+	optional bool // may be absent from the answer (known finding C08-notags-invisible; non-target series of a matcher query)
+	// partialOK: a subset of the sent points is acceptable (non-target series of a matcher query:
+	// which series and segments a matcher selects is C09's subject); returned points must still be genuine
+	partialOK bool
+	name      string
+	tags      map[string]string // non-empty valued tags
+	all       map[string]string // all tags
+	pts       map[uint32][]uint64
 }
 
 func (e *expSeries) describe() string {
@@ -556,7 +576,7 @@ func compareSeriesPoints(e *expSeries, got []QPoint) error {
 		}
 	}
 	for t, want := range e.pts {
-		if len(want) == 1 && !seen[t] {
+		if len(want) == 1 && !seen[t] && !e.partialOK {
 			return fmt.Errorf("sent point (t=%d, v=%v) is missing", t, Pt{Bits: want[0]}.V())
 		}
 	}
@@ -573,8 +593,18 @@ type runner struct {
 	lo, hi  uint32
 }
 
-func (r *runner) start() error {
-	c, err := sut.Start(sut.Options{DataDir: r.dataDir, Env: map[string]string{"VERIF_LOGLEVEL": "error"}, Timeout: 45 * time.Second})
+func (r *runner) start(restart bool) error {
+	opts := sut.Options{DataDir: r.dataDir, Env: map[string]string{"VERIF_LOGLEVEL": "error"}, Timeout: 45 * time.Second}
+	if restart && pt.KnownFindingOpen(kfMetaWal) {
+		// Known finding C08-meta-wal-stale-entry: at start-up RecoverMEntryWALData appends the last
+		// 1-second snapshot of the meta-entry WAL to metricmeta.json. If that snapshot was taken
+		// while a since-rotated segment was still empty or partly filled (a matter of timer phase,
+		// not of the input), it overrides the segment's final entry and the segment's data is no
+		// longer searched. To keep the verdict a function of the case, a restarted worker skips the
+		// WAL recovery functions (after the shutdown flush there is nothing legitimate to recover).
+		opts.Features = []string{"nowalrecover"}
+	}
+	c, err := sut.Start(opts)
 	if err != nil {
 		return pt.Inconclusivef("worker start: %v", err)
 	}
@@ -747,25 +777,26 @@ func (r *runner) verify(stage string) error {
 		s := &r.cs.Series[r.cs.Sel]
 		if _, excluded := r.ex.names[s.Name]; !excluded && len(r.acked[r.cs.Sel]) > 0 && metricIdentRe.MatchString(s.Name) {
 			var ms []string
-			want := map[string]string{}
 			for _, tg := range s.Tags {
 				// "*" as a matcher value is SigLens' wildcard (matcher semantics belong to C09), and an
 				// empty matcher value means "label absent" in PromQL: neither is used as a matcher
 				if tg.V != "" && tg.V != "*" && identRe.MatchString(tg.K) && !strings.HasPrefix(tg.K, "__") {
 					ms = append(ms, tg.K+"="+promQuote(tg.V))
-					want[tg.K] = tg.V
 				}
 			}
 			if len(ms) > 0 {
 				q := s.Name + "{" + strings.Join(ms, ",") + "}"
-				exp := r.expectedFor(s.Name, func(e *expSeries) bool {
-					for k, v := range want {
-						if e.tags[k] != v {
-							return false
-						}
+				// C08 asks that the series is returned by a selector for it, exactly. Which other
+				// series of the metric a set of matchers selects is matcher semantics (C09): e.g. a
+				// matcher on a key that has no tags-tree file in an older tags-tree directory is
+				// ignored there. Other returned series must still be genuine (sent name, tags, points).
+				exp := r.expectedFor(s.Name, nil)
+				for _, e := range exp {
+					if e.idx != r.cs.Sel {
+						e.optional = true
+						e.partialOK = true
 					}
-					return true
-				})
+				}
 				r.o.Count("selector_queries", 1)
 				if err := r.checkQuery(q, exp, stage, false); err != nil {
 					return err
@@ -835,7 +866,7 @@ func checkE2E(cs *e2eCase, o *pt.Obs) (err error) {
 			}
 		}
 	}
-	if err := r.start(); err != nil {
+	if err := r.start(false); err != nil {
 		return err
 	}
 	defer func() {
@@ -861,7 +892,7 @@ func checkE2E(cs *e2eCase, o *pt.Obs) (err error) {
 			}
 			r.c.Close()
 			r.c = nil
-			if err := r.start(); err != nil {
+			if err := r.start(true); err != nil {
 				return err
 			}
 		default:
